@@ -11,7 +11,7 @@ PROPERTY = "C20"
 TRACE = "T_Raster"
 ENUM = {
     "quick":    [dict(module="MC_Raster", cfg="MC_Raster_quick.cfg", workers=8)],
-    "thorough": [dict(module="MC_Raster", cfg="MC_Raster_thorough.cfg", workers=16, coverage=True)],
+    "thorough": [dict(module="MC_Raster", cfg="MC_Raster_thorough.cfg", workers=16, coverage=True, heap="20g")]   # the labelled state graph of the thorough universe needs more than the default 6 GB,
 }
 POOL = 12
 CHUNK = 1000
